@@ -34,6 +34,24 @@ Proof.
   - rewrite (Rabs_left1 bp_MDOTINIT) by exact Hm. field. repeat split; assumption.
 Qed.
 
+(* zero-length rows (valves, heat exchangers, pumps) *)
+Lemma zero_length_lemma :
+  forall (nb : bool) (bp_AREA bp_D bp_LAMBDA bp_LOSS_COEFFICIENT bp_MDOTINIT bp_PL der_lambda height_difference
+          p_init_i1_abs p_init_i_abs rho : R),
+  bp_AREA <> 0 -> bp_D <> 0 -> rho <> 0 -> 0 <= bp_MDOTINIT ->
+  let lv := if nb then hyd_incomp_nb_load_vec bp_AREA bp_D bp_LAMBDA 0 bp_LOSS_COEFFICIENT bp_MDOTINIT bp_PL
+                         der_lambda height_difference p_init_i1_abs p_init_i_abs rho
+            else hyd_incomp_np_load_vec bp_AREA bp_D bp_LAMBDA 0 bp_LOSS_COEFFICIENT bp_MDOTINIT bp_PL
+                         der_lambda height_difference p_init_i1_abs p_init_i_abs rho in
+  let v := bp_MDOTINIT / (rho * bp_AREA) in
+  lv * bar = (p_init_i_abs - p_init_i1_abs + bp_PL) * bar + rho * g_doc * height_difference
+             - bp_LOSS_COEFFICIENT * (rho * v ^ 2 / 2).
+Proof.
+  intros nb A D lam zeta m PL dl dh p1 p0 rho HA HD Hr Hm lv v.
+  destruct (incomp_lemma nb A D lam 0 zeta m PL dl dh p1 p0 rho HA HD Hr) as [Hf _].
+  specialize (Hf Hm). subst lv v. rewrite Hf. unfold doc_p_loss. unfold Rdiv. ring.
+Qed.
+
 (* gas residual = integrated form of the documented differential law:  p dp = -C dl  =>  (P_i^2 - P_{i+1}^2)/2 = C L,
    with the lumped loss coefficient entering like lambda L / d, pressures P in Pa, v_N = m / (rho_N A) *)
 Lemma comp_lemma (nb : bool) :
